@@ -397,6 +397,107 @@ def run_constant_batches(shard, acc):
                             "expected": {p: ref_constant(h, p, False) for p in PTYPES}})
 
 
+
+# ------------------------------------------------------------------------------------------------
+# constant model: ONE model object personalised several times (E-HIST over the call history of the object)
+# ------------------------------------------------------------------------------------------------
+
+REUSE_HISTS = {  # 3 individuals whose features carry clearly different values (a mislabelled column always shows)
+    2: [{"ages": [70.0, 72.5], "rows": [[0.1, 0.9], [0.5, None]]},
+        {"ages": [71.0], "rows": [[None, 0.5]]},
+        {"ages": [74.0, 69.0, 71.5], "rows": [[0.9, 0.1], [0.1, 0.5], [None, 0.9]]}],
+    3: [{"ages": [70.0, 72.5], "rows": [[0.1, 0.9, 0.5], [0.5, None, 0.1]]},
+        {"ages": [71.0], "rows": [[None, 0.5, 0.9]]},
+        {"ages": [74.0, 69.0, 71.5], "rows": [[0.9, 0.1, None], [0.1, 0.5, 0.9], [None, 0.9, 0.5]]}],
+}
+
+
+def reuse_tables(nf):
+    """Tables a ConstantModel object may see one after the other: every column order of the nf features and every
+    non-empty strict subset (in catalogue order)."""
+    out = [list(p) for p in itertools.permutations(range(nf))]
+    for k in range(1, nf):
+        out += [list(c) for c in itertools.combinations(range(nf), k)]
+    return out
+
+
+def reuse_sequences(nf, depth):
+    tabs = reuse_tables(nf)
+    for d in range(2, depth + 1):
+        for seq in itertools.product(range(len(tabs)), repeat=d):
+            yield [tabs[i] for i in seq]
+
+
+def _reuse_frame(nf, cols):
+    ids = [f"p{i:03d}" for i in range(len(REUSE_HISTS[nf]))]
+    recs = []
+    for i, h in enumerate(REUSE_HISTS[nf]):
+        for a, row in zip(h["ages"], h["rows"]):
+            recs.append([ids[i], a] + [np.nan if row[j] is None else row[j] for j in cols])
+    return ids, pd.DataFrame(recs, columns=["ID", "TIME"] + [FEATS[j] for j in cols])
+
+
+def check_constant_reuse(nf, seq, ptype):
+    """The same ConstantModel object personalises the tables of `seq` one after the other; after EVERY call the individual
+    parameters and the estimates must be the documented estimator of the table just given, feature by feature (what a new
+    model object returns).  Returns (outcome label, problems=[(signature, message, expected, observed)])."""
+    problems = []
+    model = ConstantModel("constant")
+    request = [69.0, 71.5, 80.0]
+    for step, cols in enumerate(seq):
+        names = [FEATS[j] for j in cols]
+        ids, df = _reuse_frame(nf, cols)
+        later = "first use of the object" if step == 0 else ("same features in another order" if sorted(cols) == sorted(seq[step - 1]) and cols != seq[step - 1]
+                                                             else "same table again" if cols == seq[step - 1] else "other set of features")
+        site = "constant.personalize[object already used]" if step else "constant.personalize"
+        try:
+            data = Data.from_dataframe(df, drop_full_nan=False)
+            ip = model.personalize(data, "constant_prediction", prediction_type=ptype)
+            est = model.estimate({i: list(request) for i in ids}, ip)
+        except Exception as e:  # noqa: BLE001
+            problems.append((f"{site}|{type(e).__name__}|{later}", f"{type(e).__name__}: {e} (tables so far {seq[:step + 1]})", None, None))
+            return "reuse:exception", problems
+        if list(model.features) != names:
+            problems.append((f"{site}|model features are not the features of the table just personalised|{later}",
+                             f"after tables {seq[:step + 1]}", names, list(model.features)))
+        for k, i in enumerate(ids):
+            h = REUSE_HISTS[nf][k]
+            ref_all = ref_constant(h, ptype, False)
+            ref = {FEATS[j]: ref_all[j] for j in cols}
+            params = ip[i]
+            if sorted(params.keys()) != sorted(names):
+                problems.append((f"{site}|parameter names|{later}", f"individual {i} after tables {seq[:step + 1]}", names, list(params.keys())))
+                break
+            if not all(_value_ok(params[n], ref[n], ptype) for n in names):
+                problems.append((f"{site}|value of a feature is not its documented '{ptype}' estimator|{later}",
+                                 f"individual {i} after tables {seq[:step + 1]}", ref, {n: float(params[n]) for n in names}))
+                break
+            arr = est[i]
+            if not (isinstance(arr, np.ndarray) and arr.shape == (len(request), len(names))):
+                problems.append((f"constant.estimate[object already used]|shape|{later}", f"individual {i}", [len(request), len(names)], list(np.shape(arr))))
+                break
+            # columns of the estimate follow the features of the model (= of the table just given)
+            if not all(_value_ok(arr[t, c], ref[n], ptype) for t in range(len(request)) for c, n in enumerate(names)):
+                problems.append((f"constant.estimate[object already used]|column of a feature holds another feature's value|{later}" if step else
+                                 f"constant.estimate|value mismatch|{ptype}", f"individual {i} after tables {seq[:step + 1]}", [ref[n] for n in names], arr.tolist()))
+                break
+    return "reuse:" + ">".join("".join(FEATS[j] for j in cols) for cols in seq[-2:]), problems
+
+
+def run_constant_reuse(shard, acc):
+    nf, depth = shard["nf"], shard["depth"]
+    for seq in reuse_sequences(nf, depth):
+        for ptype in PTYPES:
+            acc.evaluation()
+            acc.nontriv(f"reuse{nf}{ptype}{seq}")
+            outcome, problems = check_constant_reuse(nf, seq, ptype)
+            acc.outcome(outcome)
+            for sig, msg, exp, obs in problems:
+                acc.violation(sig, msg, {"part": "constant-reuse", "n_features": nf, "sequence": seq, "ptype": ptype}, expected=exp, observed=obs)
+            if not acc.samples and len(seq) == 2 and sorted(seq[0]) == sorted(seq[1]) and seq[0] != seq[1]:
+                acc.sample({"part": "constant-reuse", "n_features": nf, "sequence": seq, "ptype": ptype, "outcome": outcome})
+
+
 # ------------------------------------------------------------------------------------------------
 # LME
 # ------------------------------------------------------------------------------------------------
@@ -453,6 +554,15 @@ LME_CONFIGS = [
     {"slope": True, "indep": False},
     {"slope": True, "indep": True},
 ]
+# other optimisers of the reference library (keyword arguments forwarded to MixedLM.fit).  'powell' / 'nm' are documented
+# (warning) as not honouring force_independent_random_effects: the fitted covariance may then be full, and the personalised
+# random effects must still be the conditional means given THAT fitted covariance.  Run on the first cohorts only (slower).
+LME_CONFIGS_METHOD = [
+    {"slope": True, "indep": True, "method": ["powell"]},
+    {"slope": True, "indep": False, "method": ["powell"]},
+    {"slope": False, "indep": False, "method": ["nm"]},
+]
+N_METHOD_COHORTS = {"quick": 6, "thorough": 40}
 
 RECORD = []
 
@@ -495,9 +605,13 @@ def check_lme(k, cfg):
     """Returns (outcome, nontrivial, problems, info); problems = [(signature, message, expected, observed)]."""
 
     slope, indep = cfg["slope"], cfg["indep"]
+    method = cfg.get("method")
     tag = "slope" if slope else "intercept-only"
     if indep:
         tag += "+independent"
+    if method:
+        tag += "+method=" + ",".join(method)
+    fit_kw = {"method": list(method)} if method else {}
     train, everyone = lme_cohort(k)
     problems = []
     info = {"k": k, "n_train_rows": len(train)}
@@ -506,7 +620,7 @@ def check_lme(k, cfg):
     model = LMEModel("lme", with_random_slope_age=slope)
     with recording_mixedlm() as rec:
         try:
-            model.fit(Data.from_dataframe(_frame(train), drop_full_nan=False), "lme_fit", force_independent_random_effects=indep)
+            model.fit(Data.from_dataframe(_frame(train), drop_full_nan=False), "lme_fit", force_independent_random_effects=indep, **fit_kw)
         except LeaspyDataInputError as e:
             if "singular" in str(e):
                 return f"lme:{tag}:refused singular covariance", False, problems, info
@@ -548,7 +662,8 @@ def check_lme(k, cfg):
         return None, False, problems, info
     if slope and not np.allclose(np.asarray(sm_model.exog_re), np.asarray(sm_model.exog)):
         problems.append((f"lme.fit|random-effects design is not [1, age]|{tag}", "exog_re differs from exog", None, None))
-    if indep and abs(cov_re[0, 1]) > 1e-12 * max(1.0, abs(cov_re).max()):
+    honoured = not (method and {"powell", "nm"} & set(method))  # documented: these optimisers ignore the constraint
+    if indep and honoured and abs(cov_re[0, 1]) > 1e-12 * max(1.0, abs(cov_re).max()):
         problems.append((f"lme.fit|random effects not independent although forced|{tag}", "off-diagonal covariance is not 0", 0.0, float(cov_re[0, 1])))
 
     # ---------------- (B) what is stored is the fitted result
@@ -690,7 +805,7 @@ def check_lme(k, cfg):
 
 def run_lme(shard, acc):
     for k in shard["ks"]:
-        for c_i, cfg in enumerate(LME_CONFIGS):
+        for c_i, cfg in enumerate(LME_CONFIGS + (LME_CONFIGS_METHOD if k in shard.get("method_ks", []) else [])):
             acc.evaluation()
             try:
                 with time_limit(180):
@@ -704,9 +819,9 @@ def run_lme(shard, acc):
             acc.count("lme training individuals compared with statsmodels random_effects at <= 1e-5 relative", info.get("sm_tight", 0))
             acc.count("lme training individuals compared with a conditioning-widened tolerance", info.get("sm_loose", 0))
             if material:
-                acc.nontriv(f"L{k:011d}{int(cfg['slope'])}{int(cfg['indep'])}xx")
+                acc.nontriv(f"L{k:011d}{int(cfg['slope'])}{int(cfg['indep'])}xx" + ("".join(cfg["method"]) if cfg.get("method") else ""))
             for sig, msg, exp, obs in problems:
-                acc.violation(sig, msg, {"part": "lme", "k": k, "slope": cfg["slope"], "indep": cfg["indep"],
+                acc.violation(sig, msg, {"part": "lme", "k": k, "slope": cfg["slope"], "indep": cfg["indep"], "method": cfg.get("method"),
                                          "training_rows_info": lme_cohort(k)[0]}, expected=exp, observed=obs)
             if k % 10 == 1 and c_i == 1:
                 acc.sample({"part": "lme", "k": k, "config": cfg, "training_rows": lme_cohort(k)[0][:6], "info": info, "outcome": outcome})
@@ -742,7 +857,10 @@ def bounds(tier):
         "constant_in_cohorts": [f"{nf} feature(s) x {nv} visits, alphabet {ALPHABETS[a]}, all tables x all row orders x 4 types x (age set, drop_full_nan) in {_ingested_configs()}, cohorts of {BATCH}+6"
                                 for nf, nv, a in batches],
         "constant_direct_call": f"every history above x age sets {ASETS_ALL} x 4 types through _get_individual_last_values on the rows as given",
-        "lme": f"cohort indices 0..{(40 if tier == 'quick' else 400) - 1} and 100000+seed x {LME_CONFIGS}",
+        "constant_object_reuse": "one ConstantModel object personalised 2..3 times in a row (2 features: every sequence of the 4 tables = 2 column orders + "
+                                 "2 single-feature subsets; 3 features: every sequence of the 12 tables = 6 orders + 6 subsets, length 2"
+                                 + (" and 3" if tier == "thorough" else "") + ") x 4 types; parameters and estimates checked after every call",
+        "lme": f"cohort indices 0..{(40 if tier == 'quick' else 400) - 1} and 100000+seed x {LME_CONFIGS}; cohorts 0..{N_METHOD_COHORTS[tier] - 1} also x {LME_CONFIGS_METHOD}",
     }
 
 
@@ -754,9 +872,12 @@ def shards(tier, seed):
         step = max(1, 400 // (8 * math.factorial(nv)))  # ~400 personalize calls (a few seconds) per shard
         for lo in range(0, nt, step):
             out.append({"kind": "const_single", "nf": nf, "nv": nv, "alpha": alpha, "lo": lo, "hi": min(nt, lo + step)})
+    # one ConstantModel object personalised 2..depth times in a row with every column order / subset of the features
+    out.append({"kind": "const_reuse", "nf": 2, "depth": 3})
+    out.append({"kind": "const_reuse", "nf": 3, "depth": 2 if tier == "quick" else 3})
     ks = _lme_indices(tier, seed)
     for lo in range(0, len(ks), 10):
-        out.append({"kind": "lme", "ks": ks[lo:lo + 10]})
+        out.append({"kind": "lme", "ks": ks[lo:lo + 10], "method_ks": [k for k in ks[lo:lo + 10] if k < N_METHOD_COHORTS[tier]]})
     for nf, nv, alpha in batches:
         nb = -(-n_tables(nf, nv, alpha) * math.factorial(nv) // BATCH)
         step = 20
@@ -774,6 +895,8 @@ def run_shard(shard):
         run_constant_singles(shard, acc)
     elif shard["kind"] == "const_batch":
         run_constant_batches(shard, acc)
+    elif shard["kind"] == "const_reuse":
+        run_constant_reuse(shard, acc)
     elif shard["kind"] == "lme":
         run_lme(shard, acc)
     else:
@@ -821,8 +944,12 @@ def replay(case):
                     continue
                 sig += "|only inside a cohort"
             out.append({"signature": sig, "message": f"{msg} (individual {idx}) expected={exp} observed={obs}"})
+    elif case["part"] == "constant-reuse":
+        _, problems = check_constant_reuse(case["n_features"], case["sequence"], case["ptype"])
+        for sig, msg, exp, obs in problems:
+            out.append({"signature": sig, "message": f"{msg} expected={exp} observed={obs}"})
     elif case["part"] == "lme":
-        _, _, problems, _ = check_lme(case["k"], {"slope": case["slope"], "indep": case["indep"]})
+        _, _, problems, _ = check_lme(case["k"], {"slope": case["slope"], "indep": case["indep"], **({"method": case["method"]} if case.get("method") else {})})
         for sig, msg, exp, obs in problems:
             out.append({"signature": sig, "message": f"{msg} expected={exp} observed={obs}"})
     else:
